@@ -361,6 +361,7 @@ type Clause struct {
 	Text string
 	E    *SExpr
 	N    int // ordinal within its kind (1-based)
+	Assume bool // at-call clause that is assumed (an explicit, listed assumption about the input) instead of proved
 }
 
 type LoopSpec struct {
@@ -623,17 +624,21 @@ func (cs *ContractSet) parseContractFile(pkgPath, file string) {
 				cur.CallAsserts = append(cur.CallAsserts, &Clause{Text: "return#" + f[1], E: e, N: len(cur.CallAsserts) + 1})
 				continue
 			}
-			if len(f) < 5 || f[0] != "call" || f[3] != "assert" {
-				errf(ln, "at call <callee> <n> assert <expr> | at return <n> assert <expr>")
+			if len(f) < 5 || f[0] != "call" || (f[3] != "assert" && f[3] != "assume") {
+				errf(ln, "at call <callee> <n> assert|assume <expr> | at return <n> assert <expr>")
 				continue
 			}
-			ex := strings.TrimSpace(rest[strings.Index(rest, " assert ")+8:])
+			kw := " " + f[3] + " "
+			ex := strings.TrimSpace(rest[strings.Index(rest, kw)+len(kw):])
 			e, err := parseSpec(ex)
 			if err != nil {
 				errf(ln, "%v", err)
 				continue
 			}
-			cur.CallAsserts = append(cur.CallAsserts, &Clause{Text: f[1] + "#" + f[2], E: e, N: len(cur.CallAsserts) + 1})
+			cur.CallAsserts = append(cur.CallAsserts, &Clause{Text: f[1] + "#" + f[2], E: e, N: len(cur.CallAsserts) + 1, Assume: f[3] == "assume"})
+			if f[3] == "assume" {
+				cs.RawScan = append(cs.RawScan, "assume at call "+f[1]+"#"+f[2]+" in "+cur.Key+": "+ex)
+			}
 		case "records":
 			if cur == nil {
 				errf(ln, "records outside func block")
